@@ -169,6 +169,7 @@ fn one_input(st: &mut Stats, s: &[u8], fam: &'static str) {
     *st.by_fam.entry(fam).or_insert(0) += 1;
     if s.len() > 2 {
         st.nontrivial += 1;
+        crate::value::note_nontrivial(&mlxcore::families::Case { int: s, frac: b"", exp: 0, fam: "", fmts: 0, expect: None });
     }
     for copy in 0..7 {
         for is32 in [false, true] {
